@@ -10,7 +10,7 @@ use arrow_buffer::{BooleanBuffer, Buffer, NullBuffer, ScalarBuffer};
 // (validity symbolic) and a 2-entry Int32 dictionary: Ok <=> every valid key k satisfies 0 <= k < 2
 // (values under null keys are ignored). The values argument is an ArrayRef (Arc<dyn Array>): values.len()
 // and values.data_type() are dyn calls.
-// @unit name=dict_i8_try_new_iff props=C09 kind=bounded bound=keys=2_dictionary=2_entries fns=DictionaryArray::try_new tier=thorough timeout=900 mem=10 note=not_confirmed_at_checkpoint
+// @unit name=dict_i8_try_new_iff props=C09 kind=bounded bound=keys=2_dictionary=2_entries fns=DictionaryArray::try_new timeout=900 mem=10 tier=thorough note=not_confirmed_not_run
 #[kani::proof]
 #[kani::unwind(8)]
 #[kani::stub(alloc::fmt::format, stub_format)]
